@@ -161,7 +161,7 @@ theorem addRefCheck_error {s : NS} {it : AddReferencesItem} {st : Status}
 
 theorem addRefCheck_ok {s : NS} {it : AddReferencesItem} {t : Nat} (h : addRefCheck s it = .ok t) :
     it.refType = some t ∧ exists? s it.source = true ∧ exists? s it.target = true ∧
-      hasRef s.sp.refs it.source it.target t = false := by
+      hasRef s.sp.refs it.source it.target t = false ∧ it.source ≠ it.target := by
   unfold addRefCheck at h
   repeat' split at h
   all_goals first
@@ -196,7 +196,7 @@ theorem addref_good (s s' : NS) (it : AddReferencesItem) (h : addReference s it 
     rw [hc] at h; simp only [] at h; cases h; exact absurd rfl (addRefCheck_error hc)
   | ok t =>
     rw [hc] at h; simp only [] at h
-    obtain ⟨h1, h2, h3, -⟩ := addRefCheck_ok hc
+    obtain ⟨h1, h2, h3, -, -⟩ := addRefCheck_ok hc
     cases hl : linkRefs s it t with
     | none => rw [hl] at h; cases h
     | some refs =>
@@ -209,6 +209,24 @@ theorem addref_good (s s' : NS) (it : AddReferencesItem) (h : addReference s it 
         · rename_i hf; simp only [hf, Bool.false_eq_true, if_false]; exact R_insertRef hl x u y
       · intro hi
         split at hl <;> exact inv_insertRef hl hi
+
+/-- **AddReferences never panics**: a reference from a node to itself is answered
+BadReferenceNotAllowed before `insert_reference` (which would panic) is reached -/
+theorem addref_total (s : NS) (it : AddReferencesItem) : ∃ s' st, addReference s it = .ok s' st () := by
+  unfold addReference
+  cases hc : addRefCheck s it with
+  | error st => exact ⟨_, _, rfl⟩
+  | ok t =>
+    simp only []
+    have hne := (addRefCheck_ok hc).2.2.2.2
+    have : ∃ refs, linkRefs s it t = some refs := by
+      unfold linkRefs
+      split
+      · exact Option.isSome_iff_exists.1 ((insertRef_isSome _ _ _ _).2 hne)
+      · exact Option.isSome_iff_exists.1 ((insertRef_isSome _ _ _ _).2 (fun e => hne e.symm))
+    obtain ⟨refs, hl⟩ := this
+    rw [hl]
+    exact ⟨_, _, rfl⟩
 
 theorem delete_flag (agg : Nat → Bool) (sp : Space) (n : Nat) (dtr : Bool) (hi : C28.Inv sp.refs)
     (hex : n ∈ sp.nodes) : ∃ sp', C29.delete agg sp n dtr = some (sp', true) := by
@@ -302,7 +320,7 @@ inductive Req where
   | delRef (it : DeleteReferencesItem)
 deriving Repr
 
-/-- one request item; `none` = panic (AddReferences with source = target, property C33) -/
+/-- one request item; `none` does not occur for states with an exact index (`step_total`) -/
 def stepReq (hier agg : Nat → Bool) (s : NS) : Req → Option (NS × Status)
   | .addNode it => match addNode hier s it with
     | .ok s' st _ => some (s', st)
@@ -362,6 +380,21 @@ theorem step_inv (hier agg : Nat → Bool) (s s' : NS) (r : Req) (st : Status)
       rw [← h1]; exact hinv hi
     · rw [← h1, delref_bad_is_noop s it hg]; exact hi
 
+/-- no request item panics or fails to return -/
+theorem step_total (hier agg : Nat → Bool) (s : NS) (r : Req) (hi : C28.Inv s.sp.refs) :
+    ∃ s' st, stepReq hier agg s r = some (s', st) := by
+  cases r with
+  | addNode it =>
+    obtain ⟨s', st, id, h⟩ := add_total hier s it
+    exact ⟨s', st, by simp [stepReq, h]⟩
+  | addRef it =>
+    obtain ⟨s', st, h⟩ := addref_total s it
+    exact ⟨s', st, by simp [stepReq, h]⟩
+  | delNode n dtr =>
+    obtain ⟨s', st, h, -⟩ := delnode_spec agg s n dtr hi
+    exact ⟨s', st, by simp [stepReq, h]⟩
+  | delRef it => exact ⟨_, _, rfl⟩
+
 /-- **Every state reached by any history of node management requests has an exact reference
 index**, so the per-request theorems of this file (and of C28/C29) apply to it. -/
 theorem run_inv (hier agg : Nat → Bool) (rs : List Req) (s s' : NS) (hi : C28.Inv s.sp.refs)
@@ -376,6 +409,16 @@ theorem run_inv (hier agg : Nat → Bool) (rs : List Req) (s s' : NS) (hi : C28.
       obtain ⟨s1, st⟩ := pr
       rw [hs] at h
       exact ih s1 (step_inv hier agg s s1 r st hi hs) h
+
+/-- **No history of node management requests panics or hangs.** -/
+theorem run_total (hier agg : Nat → Bool) (rs : List Req) (s : NS) (hi : C28.Inv s.sp.refs) :
+    ∃ s', runReq hier agg s rs = some s' := by
+  induction rs generalizing s with
+  | nil => exact ⟨s, rfl⟩
+  | cons r rs ih =>
+    obtain ⟨s1, st, hs⟩ := step_total hier agg s r hi
+    obtain ⟨s', h'⟩ := ih s1 (step_inv hier agg s s1 r st hi hs)
+    exact ⟨s', by simp [runReq, hs, h']⟩
 
 /-! ### Non-vacuity and the defects that were repaired -/
 
